@@ -167,10 +167,12 @@ theorem foldSub_sk (a : α) (t : List (Entry α)) :
     · rw [ih]; simp [h]
     · simp [List.filter_cons, h, ih, sk]
 
+omit [Alg α] in
 theorem mem_sk_of_mem {t : List (Entry α)} {e : Entry α} (h : e ∈ t) : sk e ∈ t.map sk :=
   List.mem_map_of_mem h
 
 
+omit [Alg α] in
 theorem filter_sk (p : Op → Bool) (t : List (Entry α)) :
     (t.filter (fun e => p e.1)).map sk = (t.map sk).filter (fun q => p q.1) := by
   induction t with
@@ -235,5 +237,184 @@ theorem reduceItems_flatten (s : Flat α) (hs : s.WF) :
   rw [pass_sub_flatten _ hready]
   simp only []
   rw [pass_flatten _ (by decide)]
+
+
+/-! ### the automaton of shapes is invariant under a pass -/
+
+omit [Alg α] in
+theorem run_append (q : St) (l1 l2 : List (Item α)) :
+    St.run q (l1 ++ l2) = (St.run q l1).bind (fun q' => St.run q' l2) := by
+  induction l1 generalizing q with
+  | nil => simp [St.run]
+  | cons i l ih =>
+    simp only [List.cons_append, St.run]
+    cases h : q.step i with
+    | none => simp
+    | some q' => simp [ih]
+
+omit [Alg α] in
+theorem run_mid (p l1 l2 : List (Item α)) (h : ∀ q0, St.run q0 l1 = St.run q0 l2) (q : St) :
+    St.run q (p ++ l1) = St.run q (p ++ l2) := by
+  rw [run_append, run_append]
+  cases St.run q p with
+  | none => rfl
+  | some q' => simp [h]
+
+theorem run_passAux (k : Op) (pre rest : List (Item α)) :
+    ∀ l', passAux k pre rest = .ok l' → St.run .start l' = St.run .start (pre.reverse ++ rest) := by
+  fun_induction passAux k pre rest <;> intro l' h
+  all_goals first
+    | (cases h; done)
+    | (simp only [Except.ok.injEq] at h; subst h; simp; done)
+    | skip
+  case case2 ih => rw [ih _ h]; simp
+  case case3 ih => rw [ih _ h]; simp
+  case case7 o hk hs x r ih =>
+    simp only [ne_eq, not_not] at hk hs; subst hk; subst hs
+    rw [ih _ h]; simp [St.run, St.step]
+  case case12 o hk po pre' r hs hp x ih =>
+    simp only [ne_eq, not_not] at hk hs hp; subst hk; subst hs; subst hp
+    rw [ih _ h]
+    simp only [List.reverse_cons, List.append_assoc]
+    apply run_mid; intro q0
+    cases q0 <;> simp [St.run, St.step]
+  case case13 o hk a pre' b r ih =>
+    simp only [ne_eq, not_not] at hk; subst hk
+    rw [ih _ h]
+    simp only [List.reverse_cons, List.append_assoc]
+    apply run_mid; intro q0
+    cases q0 <;> cases o <;> simp [St.run, St.step]
+  case case18 o hk a pre' no hs hn x r ih =>
+    simp only [ne_eq, not_not] at hk hs hn; subst hk; subst hn
+    rw [ih _ h]
+    simp only [List.reverse_cons, List.append_assoc]
+    apply run_mid; intro q0
+    cases q0 <;> cases o <;> simp_all [St.run, St.step]
+
+theorem run_reduceItems (l l' : List (Item α)) (h : reduceItems l = .ok l') :
+    St.run .start l' = St.run .start l := by
+  simp only [reduceItems, pass, bind, Except.bind] at h
+  split at h <;> try cases h
+  rename_i l4 h4
+  split at h4 <;> try cases h4
+  rename_i l3 h3
+  split at h3 <;> try cases h3
+  rename_i l2 h2
+  split at h2 <;> try cases h2
+  rename_i l1 h1
+  have e1 := run_passAux _ _ _ _ h1
+  have e2 := run_passAux _ _ _ _ h2
+  have e3 := run_passAux _ _ _ _ h3
+  have e4 := run_passAux _ _ _ _ h4
+  have e5 := run_passAux _ _ _ _ h
+  simp only [List.reverse_nil, List.nil_append] at e1 e2 e3 e4 e5
+  rw [e5, e4, e3, e2, e1]
+
+omit [Alg α] in
+theorem unflatTail_of_run (r : List (Item α)) (h : St.run .opnd r = some .opnd) :
+    ∃ t, unflatTail r = some t := by
+  fun_induction unflatTail r
+  case case1 => exact ⟨_, rfl⟩
+  case case2 o b r ih =>
+    have : St.run .opnd r = some .opnd := by cases o <;> simpa [St.run, St.step] using h
+    obtain ⟨t, ht⟩ := ih this
+    exact ⟨_, by rw [ht]; rfl⟩
+  case case3 => simp [St.run, St.step] at h
+  case case4 o b r ho ih =>
+    have : St.run .opnd r = some .opnd := by cases o <;> simp_all [St.run, St.step]
+    obtain ⟨t, ht⟩ := ih this
+    exact ⟨_, by rw [ht]; rfl⟩
+  case case5 t h1 h2 h3 =>
+    exfalso
+    rcases t with _ | ⟨i, t⟩
+    · exact h1 rfl
+    · cases i with
+      | opnd a => simp [St.run, St.step] at h
+      | oper o =>
+        rcases t with _ | ⟨j, t⟩
+        · cases o <;> simp [St.run, St.step] at h
+        · cases j with
+          | opnd b => exact h2 _ _ _ rfl
+          | oper o2 =>
+            rcases t with _ | ⟨k, t⟩
+            · cases o <;> cases o2 <;> simp [St.run, St.step] at h
+            · cases k with
+              | opnd b =>
+                cases o2 <;> first
+                  | exact h3 _ _ _ rfl
+                  | (cases o <;> simp [St.run, St.step] at h)
+              | oper o3 => cases o <;> cases o2 <;> simp [St.run, St.step] at h
+
+omit [Alg α] in
+theorem unflat_of_accept (l : List (Item α)) (h : accept l) : ∃ s, unflat l = some s := by
+  unfold accept at h
+  rcases l with _ | ⟨i, l⟩
+  · simp [St.run] at h
+  · cases i with
+    | opnd a =>
+      have : St.run .opnd l = some .opnd := by simpa [St.run, St.step] using h
+      obtain ⟨t, ht⟩ := unflatTail_of_run l this
+      exact ⟨((false, a), t), by simp only [unflat, ht, Option.map_some]⟩
+    | oper o =>
+      rcases l with _ | ⟨j, l⟩
+      · cases o <;> simp [St.run, St.step] at h
+      · cases j with
+        | oper o2 => cases o <;> cases o2 <;> simp [St.run, St.step] at h
+        | opnd a =>
+          cases o <;> try (simp [St.run, St.step] at h; done)
+          have : St.run .opnd l = some .opnd := by simpa [St.run, St.step] using h
+          obtain ⟨t, ht⟩ := unflatTail_of_run l this
+          exact ⟨((true, a), t), by simp only [unflat, ht, Option.map_some]⟩
+
+omit [Alg α] in
+theorem flattenTail_of_unflatTail (r : List (Item α)) (t : List (Entry α)) (h : unflatTail r = some t) :
+    flattenTail t = r ∧ ∀ e ∈ t, e.1 = Op.sub → e.2.1 = false := by
+  fun_induction unflatTail r generalizing t
+  case case1 => cases h; simp [flattenTail]
+  case case2 o b r ih =>
+    cases hr : unflatTail r with
+    | none => simp [hr] at h
+    | some t' =>
+      simp only [hr, Option.map_some, Option.some.injEq] at h; subst h
+      obtain ⟨h1, h2⟩ := ih t' hr
+      constructor
+      · simp [flattenTail, h1]
+      · intro e he; rcases List.mem_cons.mp he with rfl | he
+        · intro _; rfl
+        · exact h2 e he
+  case case3 => cases h
+  case case4 o b r ho ih =>
+    cases hr : unflatTail r with
+    | none => simp [hr] at h
+    | some t' =>
+      simp only [hr, Option.map_some, Option.some.injEq] at h; subst h
+      obtain ⟨h1, h2⟩ := ih t' hr
+      constructor
+      · simp [flattenTail, h1]
+      · intro e he; rcases List.mem_cons.mp he with rfl | he
+        · intro h; exact absurd h ho
+        · exact h2 e he
+  case case5 => cases h
+
+omit [Alg α] in
+theorem flatten_of_unflat (l : List (Item α)) (s : Flat α) (h : unflat l = some s) :
+    flatten s = l ∧ s.WF := by
+  unfold unflat at h
+  split at h
+  · rename_i a r
+    cases hr : unflatTail r with
+    | none => simp [hr] at h
+    | some t =>
+      simp only [hr, Option.map_some, Option.some.injEq] at h; subst h
+      obtain ⟨h1, h2⟩ := flattenTail_of_unflatTail r t hr
+      exact ⟨by simp [flatten, flattenHead, h1], h2⟩
+  · rename_i a r
+    cases hr : unflatTail r with
+    | none => simp [hr] at h
+    | some t =>
+      simp only [hr, Option.map_some, Option.some.injEq] at h; subst h
+      obtain ⟨h1, h2⟩ := flattenTail_of_unflatTail r t hr
+      exact ⟨by simp [flatten, flattenHead, h1], h2⟩
+  · cases h
 
 end TfelVerif.C13
